@@ -51,7 +51,14 @@ def obs(x):
     if isinstance(x, Circuit):
         return ("circuit", x.n_qubits, [obs(op) for op in x.operations])
     if isinstance(x, GateOperation):
-        return ("op", repr(fingerprint(x.gate)), [str(p) for p in x.gate.params], tuple(x.qubit_indices))
+        base = x.gate
+        while hasattr(base, "wrapped_gate"):
+            base = base.wrapped_gate
+        definition = getattr(getattr(base, "matrix_factory", None), "gate_definition", None)
+        custom = None
+        if definition is not None:  # the defining matrix and parameter order of a custom gate are public attributes
+            custom = (definition.gate_name, [sympy.srepr(e) for e in definition.matrix], [str(p) for p in definition.params_ordering])
+        return ("op", repr(fingerprint(x.gate)), [str(p) for p in x.gate.params], tuple(x.qubit_indices), custom)
     if isinstance(x, PauliTerm):
         return ("term", tuple(sorted(x.operations)), complex(x.coefficient))
     if isinstance(x, PauliSum):
@@ -237,7 +244,7 @@ OP_NAMES = None
 
 
 def machine(on_end, expired):
-    from orquestra.quantum.circuits import RX, U3, Circuit, MultiPhaseOperation
+    from orquestra.quantum.circuits import RX, U3, Circuit, CustomGateDefinition, MultiPhaseOperation
     from orquestra.quantum.distributions import MeasurementOutcomeDistribution
     from orquestra.quantum.measurements import Measurements
     from orquestra.quantum.wavefunction import Wavefunction
@@ -282,6 +289,13 @@ def machine(on_end, expired):
                 a = sympy.Symbol("a")
                 self._add("circ", Circuit([RX(a)(0), U3(0.3, a * 2, 0.1)(1), RX(0.5)(2)]))
                 self._add("circ", Circuit([U3(0.3, 0.2, 0.1).controlled(1)(2, 0)], 3))
+                # a custom gate whose defining matrix is not in any canonical / simplified form
+                ca, cb = sympy.Symbol("ca"), sympy.Symbol("cb")
+                unsimplified = CustomGateDefinition("unsimp", sympy.Matrix([
+                    [sympy.cos(ca) ** 2 - sympy.sin(ca) ** 2, -2 * sympy.sin(ca) * sympy.cos(ca) * (sympy.sin(cb) ** 2 + sympy.cos(cb) ** 2)],
+                    [sympy.sin(2 * ca) + 0 * cb, (sympy.cos(ca) - sympy.sin(ca)) * (sympy.cos(ca) + sympy.sin(ca))]]), (ca, cb))
+                self._add("circ", Circuit([unsimplified(0.4, 0.3)(1), RX(0.5)(0)]))
+                self._add("circ", Circuit([unsimplified(a, 0.25).controlled(1)(0, 2)]))
                 ph = [0.1 * (1 + (seed + 3 * i) % 17) for i in range(8)]
                 self._add("circ", Circuit([MultiPhaseOperation(tuple(ph)), RX(0.5)(1)], 3))
                 self._add("circ", Circuit([MultiPhaseOperation(tuple(ph[::-1]))], 3))
